@@ -42,6 +42,17 @@ def draw_case(rng):
 
 
 def worker(a):
+    """every third case runs with the input checks switched off: strain conversions of valid inputs do not depend on the switch"""
+    rec, s_ = a
+    off = (len(rec["path"]) + int(rec["D"])) % 3 == 0
+    with L.switch_off(off):
+        n, out, known = _worker(a)
+    if off:
+        out = [o + " [input checks switched off]" for o in out]
+    return n, out, known
+
+
+def _worker(a):
     rec, s = a
     import importlib
     import numpy as np
@@ -137,8 +148,32 @@ def run(tier, seed, pid="C13"):
     if r.violated:
         raise common.MachineryError("Strain.tla: model-level identity violated: %s" % r.violated)
     recs = [x for x in r.records if x["inrange"]]
+    # strains with components of very different size (3e-7 next to 1e-3): integer pairs (B0, B) with entries of 2e6, exact strain by the
+    # same formulas as Strain.tla (X = B0.adj B; numerators over 2 det B) in unbounded Python integers; same record format
+    def adj3(M):
+        return [[M[(j + 1) % 3][(i + 1) % 3] * M[(j + 2) % 3][(i + 2) % 3] - M[(j + 1) % 3][(i + 2) % 3] * M[(j + 2) % 3][(i + 1) % 3] for j in range(3)] for i in range(3)]
+    def mm(A_, B_):
+        return [[sum(A_[i][k] * B_[k][j] for k in range(3)) for j in range(3)] for i in range(3)]
+    base = [x for x in recs if len(x["path"]) >= 2][: (12 if tier == "quick" else 200)]
+    small = []
+    for x in base:
+        Nsc = 2000000
+        B0b = [[Nsc * e for e in row] for row in x["B0"]]
+        Bb = [list(row) for row in B0b]
+        i_, j_ = rng.choice([(0, 0), (1, 1), (2, 2), (0, 1), (0, 2), (1, 2)])
+        Bb[i_][j_] += rng.choice([-3, -1, 1, 2])                       # a strain component of a few 1e-7
+        k_ = rng.choice([0, 1, 2])
+        Bb[k_][k_] += rng.choice([-1, 1]) * rng.randint(1000, 20000)    # and one of 1e-4 .. 1e-3
+        Adj = adj3(Bb)
+        det = sum(Bb[0][k] * Adj[k][0] for k in range(3))
+        X = mm(B0b, Adj)
+        epsnum = [2 * X[0][0] - 2 * det, X[0][1] + X[1][0], X[0][2] + X[2][0], 2 * X[1][1] - 2 * det, X[1][2] + X[2][1], 2 * X[2][2] - 2 * det]
+        gst = mm([list(r_) for r_ in zip(*B0b)], B0b)
+        small.append(dict(x, B0=B0b, B=Bb, epsnum=epsnum, epsden=2 * det,
+                          gstar=[gst[0][0], gst[1][1], gst[2][2], gst[1][2], gst[0][2], gst[0][1]]))
     s = rng.uniform(0.002, 0.02)
-    res = common.pmap(worker, [(x, s) for x in recs])
+    recs = recs + small
+    res = common.pmap(worker, [(x, s if x["B0"][0][0] < 1000000 else s / 2000000.0) for x in recs])
     ncalls = 0
     for x, (n, out, known) in zip(recs, res):
         ncalls += n
